@@ -13,7 +13,9 @@ RULE = ("every text of a 18-text pool (incl. combining / zero-width characters) 
         "method of a curated list of 46 str methods with an argument pool generated from the text (separators present, "
         "absent, adjacent, at the ends, multi-character, overlapping; regexes; widths below/at/above the length; fill "
         "characters; keepends False/True; prefixes/suffixes/substrings). For delegated methods the real str result is "
-        "handed to the model as the value of the uninterpreted method. non-trivial = distinct (layout, method, args) on "
+        "handed to the model as the value of the uninterpreted method. Every FmtStr operand (receiver, join items incl. the "
+        "receiver itself and reused items) is snapshotted (runs, .s, len, str) before the call and compared after it and "
+        "after a second identical call, whose answer must equal the first. non-trivial = distinct (layout, method, args) on "
         "a string with at least one character")
 ASSUMPTIONS = ["texts contain no ESC; a RESULT text containing ESC '[' (replace with such a replacement, an ESC fill character "
                "before '[') is re-parsed by fmtstr: open finding D27, footprint = the re-wrapped str result contains ESC '['",
@@ -122,7 +124,8 @@ def arg_pool(name, t):
     if name == "join":
         red = ["f", [["q", {"fg": 31}]]]
         two = ["f", [["r", {"bold": True}], ["", {"bg": 44}], ["s", {}]]]
-        return [([],), (["x"],), (["x", "yz", ""],), ([red],), (["x", red, two],), ([two, "", red, "y"],), ([["f", []], red],)]
+        return [([],), (["x"],), (["x", "yz", ""],), ([red],), (["x", red, two],), ([two, "", red, "y"],), ([["f", []], red],),
+                (["self", "self", "self"],), ([red, "x", red],), ([two, two],), (["self", red],), ([red, "self", red, "self"],)]
     raise KeyError(name)
 
 
@@ -146,21 +149,67 @@ def mk_cases(ctx):
 
 # ---- real code -----------------------------------------------------------------------------------------------
 
-def call_real(c):
+def build(c):
+    """the receiver and the real argument tuple (FmtStr operands are built once, so that they can be looked at
+    after the call)"""
     f = mk_fmt(c["f"])
     name, args = c["m"], c["args"]
+    if name == "join":
+        cache = {}
+        return f, [[join_item(x, f, cache) for x in args[0]]]
+    return f, list(args)
+
+
+def do_call(f, name, args):
     if name == "split_regex":
         return f.split(args[0], regex=True)
-    if name == "join":
-        return f.join([join_item(x) for x in args[0]])
     return getattr(f, name)(*args)
 
 
-def join_item(x):
-    return x if isinstance(x, str) else mk_fmt([tuple(ch) for ch in x[1]])
+def call_real(c):
+    f, args = build(c)
+    return do_call(f, c["m"], args)
 
 
-def join_item_chunks(x):
+def snapshot(x):
+    return (wire.fmt_chunks(x), x.s, len(x), str(x))
+
+
+def operands(f, args):
+    out = [f]
+    for a in args:
+        for x in (a if isinstance(a, list) else [a]):
+            if isinstance(x, FmtStr) and not any(x is y for y in out):
+                out.append(x)
+    return out
+
+
+def observed(r):
+    if isinstance(r, FmtStr):
+        return ("fmt",) + snapshot(r)
+    if isinstance(r, list):
+        return ("list", [observed(x) for x in r])
+    return ("val", type(r).__name__, r)
+
+
+def join_item(x, f=None, cache=None):
+    """'self' is the receiver object itself; equal FmtStr items of one call are ONE object (reuse / aliasing)"""
+    if x == "self":
+        return f
+    if isinstance(x, str):
+        return x
+    key = repr(x)
+    if cache is not None and key in cache:
+        return cache[key]
+    r = mk_fmt([tuple(ch) for ch in x[1]])
+    if cache is not None:
+        cache[key] = r
+    return r
+
+
+def join_item_chunks(x, fchunks=None):
+    if x == "self":
+        return [tuple(ch) for ch in fchunks]
     return [(x, {})] if isinstance(x, str) else [tuple(ch) for ch in x[1]]
 
 
@@ -171,7 +220,7 @@ def call_str(c):
     if name == "split_regex":
         return re.split(args[0], s)
     if name == "join":
-        return s.join("".join(t for t, _ in join_item_chunks(x)) for x in args[0])
+        return s.join("".join(t for t, _ in join_item_chunks(x, c["f"])) for x in args[0])
     return getattr(s, name)(*args)
 
 
@@ -212,7 +261,7 @@ def line(c):
     if name in ("ljust", "rjust"):
         return "%s %s %d %s" % (name, fe, args[0], wire.enc_text(args[1]) if len(args) > 1 else "N")
     if name == "join":
-        return " ".join(["join", fe] + [wire.enc_chunks(join_item_chunks(x)) for x in args[0]])
+        return " ".join(["join", fe] + [wire.enc_chunks(join_item_chunks(x, c["f"])) for x in args[0]])
     # delegated: the real str result is the value of the uninterpreted method
     try:
         r = call_str(c)
@@ -281,12 +330,39 @@ def _oracle(c):
         exp_exc = None
     except Exception as e:  # noqa: BLE001
         exp, exp_exc = None, e
+    # FmtStr values are immutable: no operand (receiver, separator, items) may look different after the call, and
+    # the same call made again must give the same answer
+    f, rargs = build(c)
+    ops = operands(f, rargs)
+    before = [snapshot(x) for x in ops]
+
+    def untouched(when):
+        for i, x in enumerate(ops):
+            if snapshot(x) != before[i]:
+                return "%s%r changed operand %d %s: %r -> %r" % (name, tuple(args), i, when, before[i][0], snapshot(x)[0])
+        return None
     try:
-        r = call_real(c)
+        r = do_call(f, name, rargs)
     except Exception as e:  # noqa: BLE001
+        w = untouched("(call raised)")
+        if w:
+            return w
         if exp_exc is not None and type(e) is type(exp_exc):
             return None
         return "%s%r raised %s: %s (str gives %r)" % (name, tuple(args), type(e).__name__, e, exp if exp_exc is None else type(exp_exc).__name__)
+    w = untouched("after the call")
+    if w:
+        return w
+    first = observed(r)
+    try:
+        again = observed(do_call(f, name, rargs))
+    except Exception as e:  # noqa: BLE001
+        return "%s%r raised %s when called a second time" % (name, tuple(args), type(e).__name__)
+    if again != first:
+        return "%s%r called twice gives two answers: %r then %r" % (name, tuple(args), first, again)
+    w = untouched("after a second call")
+    if w:
+        return w
     if exp_exc is not None:
         return "%s%r returned %r, str raises %s" % (name, tuple(args), r, type(exp_exc).__name__)
     if name in ("split", "split_regex", "splitlines"):
@@ -314,7 +390,7 @@ def _oracle(c):
         for i, x in enumerate(args[0]):
             if i:
                 want += cs
-            want += wire.cells_of_chunks(join_item_chunks(x))
+            want += wire.cells_of_chunks(join_item_chunks(x, c["f"]))
         if cells(r) != want or r.s != exp:
             return "join: got %r expected %r" % (cells(r), want)
         return None
